@@ -430,7 +430,7 @@ pub fn run_c02(run: &mut Run) -> Stats {
     let small: Vec<u64> = vec![1, 2, 3, 9, 10, 11];
     let large: Vec<u64> = tier.pick(vec![100, 240, 65_537, 1 << 32, 1 << 63, u64::MAX], vec![99, 100, 101, 159, 160, 161, 162, 240, 400, 1000, 65_535, 65_536, 65_537, (1 << 32) - 1, 1 << 32, (1 << 32) + 1, (1 << 63) - 1, 1 << 63, u64::MAX - 1, u64::MAX]);
     let (kmax, dev, max_events) = tier.pick((4, 2, 5), (4, 3, 7));
-    run.rule = "GET x every single byte-range-spec (three forms) with positions 0..=L+2 for L in {1,2,3,9,10,11} and boundary positions {0,1,L/2,L-2,L-1,L,L+1,2^32,2^63,2^64-2,2^64-1} for large L, plus the Range-less 200, x every contract-honouring chunking of the predicted get_range call; oracle = the response's own Content-Range parsed back + descriptor-exact comparison of every delivered byte with the position-dependent entity content + recorded get_range arguments. non-trivial = distinct (Range value, L, chunking) answered 200/206 with a body".into();
+    run.rule = "GET x a handful of multi-range sets in descending / overlapping / suffix-first order (multipart: each part's bytes must be the ones its own Content-Range names) and every single byte-range-spec (three forms) with positions 0..=L+2 for L in {1,2,3,9,10,11} and boundary positions {0,1,L/2,L-2,L-1,L,L+1,2^32,2^63,2^64-2,2^64-1} for large L, plus the Range-less 200, x every contract-honouring chunking of the predicted get_range call; oracle = the response's own Content-Range parsed back + descriptor-exact comparison of every delivered byte with the position-dependent entity content + recorded get_range arguments. non-trivial = distinct (Range value, L, chunking) answered 200/206 with a body".into();
     run.bounds = json!({"small_L": small, "large_L": large.iter().map(|l| l.to_string()).collect::<Vec<_>>(), "kmax_chunks": kmax, "benign_deviations": dev, "max_events": max_events});
     run.assumptions.push("entity streams honour the Entity contract".into());
     let mut outer: Vec<(u64, Option<String>)> = Vec::new();
@@ -439,6 +439,14 @@ pub fn run_c02(run: &mut Run) -> Stats {
         let pos = if l <= 11 { small_positions(l) } else { boundary_positions(l) };
         for s in spec_strings(&pos) {
             outer.push((l, Some(format!("bytes={s}"))));
+        }
+    }
+    // multi-range requests answered as multipart: the bytes of each part must be the ones its own
+    // Content-Range names (descending, overlapping, suffix-first and duplicate orders)
+    for &l in &[1000u64, 1 << 32, u64::MAX] {
+        for set in ["40-49,5-9", "-6,0-9", "300-301,100-109,200-200", "5-9,5-9", "0-9,5-14,2-3", "7-,0-0"] {
+            let set = if set == "7-" || set.starts_with("7-,") { format!("{}-,0-0", l - 7) } else { set.to_string() };
+            outer.push((l, Some(format!("bytes={set}"))));
         }
     }
     let ev = Eval { prop: &run.prop.clone(), extra_polls: 1 };
@@ -1274,6 +1282,12 @@ pub fn run_c14(run: &mut Run) -> Stats {
         let served_etag = o1.hdr("etag").map(|v| v.to_vec());
         let served_lm = o1.hdr("last-modified").map(|v| v.to_vec());
         for subset in 0u32..32 {
+            // which Range accompanies an echoed If-Range: a single range, two ranges in the
+            // multipart zone, two ranges that must fall back to the complete 200
+            for (rv, range_hdr) in [(0usize, "bytes=2-5"), (1, "bytes=0-0,5-6"), (2, "bytes=0-998,1-")] {
+            if rv > 0 && subset & 16 == 0 {
+                continue;
+            }
             for me in ["GET", "HEAD"] {
                 let mut r2 = Req::new(me);
                 let (inm, ims, im, ius, ifr) = (subset & 1 != 0, subset & 2 != 0, subset & 4 != 0, subset & 8 != 0, subset & 16 != 0);
@@ -1300,12 +1314,12 @@ pub fn run_c14(run: &mut Run) -> Stats {
                     r2 = r2.with("if-unmodified-since", served_lm.as_ref().unwrap());
                 }
                 if ifr {
-                    r2 = r2.with("if-range", served_etag.as_ref().unwrap()).with("range", b"bytes=2-5");
+                    r2 = r2.with("if-range", served_etag.as_ref().unwrap()).with("range", range_hdr.as_bytes());
                 }
                 order += 1;
                 let Some(o2) = run_serve(&r2, &entity, 1, HORIZON) else { continue };
                 st.evaluations += 1;
-                st.nontrivial(&(ei, mi, hi, fi, subset, me));
+                st.nontrivial(&(ei, mi, hi, fi, subset, me, rv));
                 let h = st.state(&("c14-second", o1.status, subset, o2.status));
                 let h0 = st.state(&("c14-first", o1.status));
                 st.transition(h0, subset as u64, h);
@@ -1323,12 +1337,12 @@ pub fn run_c14(run: &mut Run) -> Stats {
                     // ETag is echoed in If-Match (the statement covers a served strong ETag).
                     let weak_im = im && !strong;
                     if !weak_im {
-                        let expected: u16 = if inm || ims { 304 } else if ifr && strong { 206 } else { 200 };
+                        let expected: u16 = if inm || ims { 304 } else if ifr && strong && rv < 2 { 206 } else { 200 };
                         if o2.status == 412 {
                             fail("echo-412", format!("echoing served validators (subset inm={inm} ims={ims} im={im} ius={ius} ifr={ifr}) gave 412"));
                         } else if expected == 304 && o2.status != 304 {
                             fail("echo-not-304", format!("echoing {} gave {} instead of 304 (subset inm={inm} ims={ims} im={im} ius={ius} ifr={ifr})", if inm { "If-None-Match: <served ETag>" } else { "If-Modified-Since: <served Last-Modified>" }, o2.status));
-                        } else if expected == 206 && (o2.status != 206 || o2.hdr("content-range") != Some(b"bytes 2-5/1000")) {
+                        } else if expected == 206 && (o2.status != 206 || (rv == 0 && o2.hdr("content-range") != Some(b"bytes 2-5/1000")) || (rv == 1 && o2.hdr("content-range").is_some())) {
                             fail("echo-if-range", format!("If-Range: <served strong ETag> + Range gave {} {:?}", o2.status, o2.hdr("content-range").map(String::from_utf8_lossy)));
                         } else if expected == 200 && o2.status != 200 {
                             fail("echo-status", format!("subset inm={inm} ims={ims} im={im} ius={ius} ifr={ifr} gave {}", o2.status));
@@ -1344,7 +1358,8 @@ pub fn run_c14(run: &mut Run) -> Stats {
                     }
                 }
                 ev.report(&r2, &entity, &o2, fs, st, order);
-                st.sample(2, || json!({"first": r1.to_json(), "first_status": o1.status, "served_etag": served_etag.as_ref().map(|t| String::from_utf8_lossy(t).to_string()), "served_last_modified": served_lm.as_ref().map(|t| String::from_utf8_lossy(t).to_string()), "second": r2.to_json(), "second_status": o2.status}));
+                st.sample(2, || json!({"first": r1.to_json(), "first_status": o1.status, "range_variant": rv, "served_etag": served_etag.as_ref().map(|t| String::from_utf8_lossy(t).to_string()), "served_last_modified": served_lm.as_ref().map(|t| String::from_utf8_lossy(t).to_string()), "second": r2.to_json(), "second_status": o2.status}));
+            }
             }
         }
     })
